@@ -10,9 +10,10 @@ RULE = ("generated schemas (objects, interfaces incl. interface-implements-inter
         "variables, named and inline fragments on abstract types, overlapping mergeable fields through several fragment "
         "paths, @skip/@include, custom directives, variable defaults, queries/mutations/subscriptions, introspection) and "
         "the same with ONE rule-targeted mutation (34 operators) in the reachable part; plus a stream of fragment-free "
-        "documents with repeated fields for the merge model. A case is distinct by the hash of its line and non-trivial "
-        "when the document contains a fragment on an abstract type or a variable, or is a mutant (merge stream: the "
-        "model changed the document).")
+        "documents with repeated fields for the merge model; for every document Go's normalised form is also fed to the "
+        "FieldSelectionMerging rule alone and compared with its model. A case is distinct by the hash of its line and "
+        "non-trivial when the document contains a fragment on an abstract type or a variable, or is a mutant (merge "
+        "stream: the model changed the document; overlap stream: the rule rejected).")
 
 # known-finding classification: narrow keys, decided from the failing rule families of the document Go
 # effectively validates (erules), the mutation operator label, Go's stage / family / message
@@ -108,7 +109,8 @@ def run(chk):
         "the classification of Go's first error by message template",
         "coq/C04/Spec.v is a hand transcription of the GraphQL specification section 5 (October 2021 + OneOf input objects); "
         "the Go validator itself is NOT modelled: Go's verdict is compared with the extracted spec_valid_b; only the "
-        "normaliser's field-merging / leaf de-duplication passes are modelled (coq/C04/Model.v) and tied by corr:C04/merge",
+        "normaliser's field-merging / leaf de-duplication passes and the validator's FieldSelectionMerging rule are "
+        "modelled (coq/C04/Model.v) and tied by corr:C04/merge and corr:C04/overlap",
         "lib/Exec.v reference executor (spec_valid_exec_safe is a theorem about it, not about the Go resolver)",
     ]
     chk.proof_side()
@@ -137,6 +139,10 @@ def run(chk):
         if os.path.exists(dist):
             import json
             chk.coverage["distribution"] = json.load(open(dist))
+        chk.coverage.setdefault("distribution", {})["overlap_rule_stream"] = {
+            "cases": sum(1 for c in b[0] if c.startswith("(c04overlap")),
+            "rule_rejected": sum(1 for r in b[1] if r[1] == "ok" and "overlap-reject" in r[2]),
+        }
     b = vlib.run_batch(chk, "%s merge -seed %d -n %d -out {out}" % (exe, chk.seed, nm), model, "merge")
     if b:
         vlib.digest_batch(chk, b[0], b[1], classify, state)
@@ -144,7 +150,7 @@ def run(chk):
         samples += [c[:600] for c in b[0] if c.startswith("(c04merge")][:2]
         chk.coverage.setdefault("distribution", {})["merge_stream"] = {
             "cases": sum(1 for c in b[0] if c.startswith("(c04merge")),
-            "model_changed_document": sum(1 for r in b[1] if r[1] == "ok" and r[2].startswith("nt")),
+            "model_changed_document": sum(1 for r in b[1] if r[1] == "ok" and r[2].startswith("nt") and b[0][r[0] - 1].startswith("(c04merge")),
             "distinguishes_repaired_from_unrepaired_merge": sum(1 for r in b[1] if "discriminates-prefix-model" in r[2]),
         }
 
